@@ -132,6 +132,8 @@ type Desc struct {
 	Precision string `json:"precision"`
 	// lokijson
 	BadTs bool `json:"bad_ts,omitempty"`
+	// generic: the controller constructor serving the path (key of the regenerated route table)
+	Handler string `json:"handler,omitempty"`
 }
 
 type Obs struct {
@@ -848,6 +850,91 @@ func genStruct(r *rand.Rand, id int) Case {
 	return c
 }
 
+// ------------------------------------------------------------------ the routes without a field-level model
+// (Datadog logs / metrics, Cloudflare, Elastic doc / bulk, OTLP logs): the model predicts the class from the
+// regenerated route table (Content-Type dispatch, success status) and the verdict of the wire decoder.
+
+type genericRoute struct {
+	handler string
+	paths   []string
+	q       []KV
+	cts     []string // content types that select a parser
+	badCts  []string // content types the route answers 400 to (none: "*" parser)
+	good    [][]byte
+	bad     [][]byte // bodies the decoder rejects
+}
+
+func genericRoutes() []genericRoute {
+	ddlog := `{"ddsource":"nginx","ddtags":"env:prod,team:a","hostname":"h1","message":"hello","service":"web","timestamp":1700000000000}`
+	series := `{"metric":"system.load.1","type":0,"points":[{"timestamp":1700000000,"value":0.7}],"resources":[{"name":"h1","type":"host"}],"tags":["env:prod"]}`
+	cf := `{"DispatchNamespace":"","Event":{"RayID":"1"},"EventTimestampMs":1700000000000,"Logs":[{"Level":"log","Message":["x"],"TimestampMs":1700000000000}],"Outcome":"ok","ScriptName":"s"}`
+	return []genericRoute{
+		{"PushDatadogV2", []string{"/api/v2/logs"}, []KV{{"ddsource", "nginx"}},
+			[]string{"application/json", "application/json; charset=utf-8", "application/jsonx"},
+			[]string{"", "text/plain", "Application/json", "application/x-ndjson", " application/json", "json"},
+			[][]byte{[]byte("[" + ddlog + "]"), []byte("[" + ddlog + "," + ddlog + "]"), []byte("[]"), []byte(`[{"message":"only"}]`), []byte(`[{"unknown":{"a":[1,2]},"message":"m","timestamp":0}]`)},
+			[][]byte{[]byte(`{"message":"not an array"}`), []byte(`[{"message":5}]`), []byte("[" + ddlog), []byte(`[{"timestamp":"x"}]`), []byte(`[{"ddtags":7}]`), []byte(""), []byte("[1]")}},
+		{"PushDatadogMetricsV2", []string{"/api/v2/series"}, nil,
+			[]string{"application/json", "application/json; charset=utf-8"},
+			[]string{"", "text/plain", "APPLICATION/JSON", "application"},
+			[][]byte{[]byte(`{"series":[` + series + `]}`), []byte(`{"series":[` + series + `,` + series + `]}`), []byte(`{"series":[]}`), []byte(`{}`),
+				[]byte(`{"series":[{"metric":"no.points","tags":["a:b"]}]}`), []byte(`{"other":1,"series":[{"metric":"m","points":[]}]}`)},
+			[][]byte{[]byte(`{"series":5}`), []byte(`{"series":[{"points":[{"timestamp":"x"}]}]}`), []byte(`{"series":[` + series), []byte(`[]`), []byte(""), []byte(`{"series":[{"points":5}]}`)}},
+		{"PushCfDatadogV2", []string{"/cf/v1/insert"}, []KV{{"ddsource", "cf"}},
+			[]string{"application/json", "", "text/plain", "application/x-ndjson"}, nil,
+			[][]byte{[]byte(cf + "\n"), []byte(cf + "\n" + cf + "\n"), []byte(cf), []byte(""), []byte(`{"EventTimestampMs":"notnum","When":true,"ActionResult":false}` + "\n")},
+			[][]byte{[]byte("not json\n"), []byte(cf + "\n{\"EventType\":5}\n"), []byte(cf[:len(cf)/2]), []byte("[1,2]\n"), []byte(cf + "\n\n"), []byte(`{"ActionResult":5}` + "\n")}},
+		{"TargetDocV2", []string{"/logs/_doc", "/logs/_create/7", "/a.b-c/_doc"}, nil,
+			[]string{"application/json", "", "text/plain", "application/x-ndjson"}, nil,
+			[][]byte{[]byte(`{"message":"hello","level":"info"}`), []byte(""), []byte("not json at all"), []byte{0xff, 0xfe, 0x00}}, nil},
+		{"TargetBulkV2", []string{"/_bulk", "/logs/_bulk"}, nil,
+			[]string{"application/json", "application/x-ndjson", "", "text/plain"}, nil,
+			[][]byte{[]byte("{\"index\":{\"_index\":\"logs\",\"app\":\"a\"}}\n{\"message\":\"hello\"}\n"), []byte("{\"create\":{\"app\":\"a\"}}\n{\"message\":\"hello\"}\n{\"delete\":{\"_index\":\"logs\"}}\n"),
+				[]byte(""), []byte("\n\n"), []byte("{\"update\":{}}\n{\"doc\":{}}\n"), []byte("{\"index\":{\"n\":5,\"type\":\"x\"}}\n{}\n")},
+			[][]byte{[]byte("not json\n"), []byte("{\"index\":{\"app\":\"a\"}}\n{\"message\":\n"), []byte("{\"index\":5}\n"), []byte("[1]\n")}},
+		{"OTLPLogsV2", []string{"/v1/logs"}, nil,
+			[]string{"application/x-protobuf", "", "application/json"}, nil,
+			[][]byte{otlpLogsSeed(), nil},
+			[][]byte{[]byte("\xff\xff\xff\xff not a protobuf message"), otlpLogsSeed()[:len(otlpLogsSeed())-3]}},
+	}
+}
+
+func genGeneric(r *rand.Rand, id int) Case {
+	rs := genericRoutes()
+	g := rs[r.Intn(len(rs))]
+	c := Case{ID: id, Stream: "generic"}
+	d := &Desc{Route: "generic", Handler: g.handler, WireOK: true}
+	d.CT = g.cts[r.Intn(len(g.cts))]
+	kind := "wellformed"
+	body := g.good[r.Intn(len(g.good))]
+	switch k := r.Intn(10); {
+	case k < 3 && len(g.bad) > 0:
+		body = g.bad[r.Intn(len(g.bad))]
+		d.WireOK = false
+		kind = "badbody"
+	case k < 5 && len(g.badCts) > 0:
+		d.CT = g.badCts[r.Intn(len(g.badCts))]
+		kind = "badct"
+		if r.Intn(2) == 0 && len(g.bad) > 0 {
+			body = g.bad[r.Intn(len(g.bad))]
+			d.WireOK = false
+		}
+	}
+	c.Class = "generic/" + g.handler + "/" + kind
+	c.Req.Path = g.paths[r.Intn(len(g.paths))]
+	c.Req.Query = append([]KV(nil), g.q...)
+	if len(c.Req.Query) > 0 && r.Intn(4) == 0 {
+		c.Req.Query[0][1] = pick(r, "", phraseText(r), "x y", "{")
+	}
+	c.Req.Headers = []KV{{"Content-Type", d.CT}}
+	c.Req.BodyHex = hex.EncodeToString(body)
+	c.D = d
+	if r.Intn(8) == 0 {
+		overlayCE(r, &c)
+	}
+	return c
+}
+
 // ------------------------------------------------------------------ byte-level generator (fuzzing)
 
 type seed struct {
@@ -1319,6 +1406,7 @@ func main() {
 	workerMode := flag.Bool("worker", false, "run cases in this process (child of the supervisor)")
 	from := flag.Int("from", 0, "worker: index of the first case to run")
 	nbytes := flag.Int("nbytes", 0, "number of byte-level (fuzz) cases")
+	ngeneric := flag.Int("ngeneric", 0, "number of cases on the routes predicted from the route table (datadog, cf, elastic, otlp logs)")
 	deadlineMs := flag.Int("deadline-ms", 3000, "per-request deadline")
 	phrasesFile := flag.String("phrases-file", "", `JSON {"phrases":[...]}: texts the repository compares error texts with`)
 	maxBad := flag.Int("max-bad", 0, "stop after this many crash/hang/leak observations (0 = never)")
@@ -1354,6 +1442,9 @@ func main() {
 		sd := seeds(r)
 		for i := 0; i < *nbytes; i++ {
 			cases = append(cases, genBytes(r, f.N+i, sd))
+		}
+		for i := 0; i < *ngeneric; i++ {
+			cases = append(cases, genGeneric(r, f.N+*nbytes+i))
 		}
 	}
 	tmp := f.Out + ".cases"
